@@ -243,6 +243,21 @@ pub fn check_program(sh: &mut Shard, p: &[Stmt]) {
 
 fn run(sh: &mut Shard) {
     let tier = sh.cfg.tier;
+    // a literal evaluated again is pristine, whatever its earlier value went through
+    for prog in crate::slices::literal_pristine_programs() {
+        if !sh.mine() {
+            continue;
+        }
+        sh.begin(&|| printer::program(&prog));
+        sh.count("family:literal-pristine");
+        if let Some(r) = differential(sh, "constants", &prog, opts()) {
+            if !matches!(r.model.end, End::Unspec(_) | End::Diverge) {
+                sh.nontrivial(&printer::program(&prog));
+            } else {
+                sh.count("literal-pristine-unspecified");
+            }
+        }
+    }
     // constant-pool ladders: indices across 255 / 65 535, same literals at top level and in a function
     crate::ladders::run_family(sh, "constants", Some("consts"), false);
     for sl in slices::slices() {
@@ -274,7 +289,10 @@ fn run(sh: &mut Shard) {
 fn replay(sh: &mut Shard, case: &Value) {
     sh.mine();
     if let Some(p) = case["program"].as_str() {
-        if let crate::common::Parsed::Ok(ast) = crate::common::parse_guarded(p) {
+        if case.get("model").is_some() {
+            // a case of the model-based families (ladders, literal-pristine)
+            crate::common::differential_text(sh, "replay", p, None, opts());
+        } else if let crate::common::Parsed::Ok(ast) = crate::common::parse_guarded(p) {
             check_program(sh, &ast);
         }
     }
